@@ -2,6 +2,8 @@
    INPUT fields are separated by '|', tokens inside a field by single spaces.
    value tokens:  i<int>  y<symbol>  s<string>  o<n>  ( .. )  [ .. ]  { typename k v k v .. }
    template tokens (abstract syntax): the same, plus  ~ <value>  and  ~@ <value>
+   V is the reader's RAW output (comments written inside the form are o-1 elements); the runner
+   applies the model of the loader's comment filter (Templ.strip) first.
    kinds:
      sq:route|SRC|A|V|form => value|form => !|...   value of (syntaxQuote V); A = the template as abstract
                                                 syntax, V = what the real reader produced from SRC
@@ -120,7 +122,7 @@ let () =
     | [id; body] ->
       (match String.split_on_char '|' body with
        | ("sq:text" | "sq:ctx" | "sq:api" | "sq:twice" | "sq:rec") :: _src :: a :: v :: binds ->
-         let a = tmpl_of_string a and v = value_of_string v in
+         let a = tmpl_of_string a and v = strip (value_of_string v) in
          let rho = mk_rho (List.map parse_binding binds) in
          let model =
            (match sq_model rho v with
@@ -134,7 +136,7 @@ let () =
          Printf.printf "%s\t%s\t%s\t%s\n" id model spec (long_hash_splice rho a)
        | "mac" :: _src :: params :: a :: v :: args :: binds ->
          let params = List.map sym (split_sp params) in
-         let a = tmpl_of_string a and v = value_of_string v in
+         let a = tmpl_of_string a and v = strip (value_of_string v) in
          let args = List.filter (fun s -> String.trim s <> "") (split_on " , " args) in
          let args = List.map value_of_string args in
          let glob = mk_rho (List.map parse_binding binds) in
